@@ -334,7 +334,7 @@ pub fn replay(num_threads: usize, num_slots: usize, num_contents: i64, max_buf: 
 
 /// Free-running threads; the state at every barrier is logged as an "observe" event.
 pub fn stress(seed: u64, num_threads: usize, num_slots: usize, num_contents: i64, rounds: usize,
-              ops_per_round: usize, out: &mut dyn Write) {
+              ops_per_round: usize, pair_drops: usize, out: &mut dyn Write) {
     let _g = GLOBAL.lock().unwrap();
     rbx_types::verif_set_shared_string_yield(None);
     let ep = format!("stress:{}", seed);
@@ -342,11 +342,18 @@ pub fn stress(seed: u64, num_threads: usize, num_slots: usize, num_contents: i64
     let barrier = Arc::new(Barrier::new(num_threads + 1));
     let shared: Arc<Mutex<Vec<Vec<SlotInfo>>>> = Arc::new(Mutex::new(vec![vec![None; num_slots]; num_threads]));
     let bad: Arc<Mutex<Vec<String>>> = Arc::new(Mutex::new(Vec::new()));
+    // pair phase: thread 2p makes a handle and gives a clone to thread 2p+1; the two - the only holders of that
+    // content - drop at the same moment, over and over; afterwards nobody holds anything
+    type Cell = (Mutex<Option<SharedString>>, std::sync::atomic::AtomicUsize);
+    let cells: Arc<Vec<Cell>> = Arc::new((0..num_threads / 2 + 1).map(|_| (Mutex::new(None), std::sync::atomic::AtomicUsize::new(0))).collect());
+    let pair_stale = Arc::new(std::sync::atomic::AtomicUsize::new(0));
     let mut handles = Vec::new();
     for t in 0..num_threads {
         let barrier = barrier.clone();
         let shared = shared.clone();
         let bad = bad.clone();
+        let cells = cells.clone();
+        let pair_stale = pair_stale.clone();
         handles.push(std::thread::spawn(move || {
             let mut rng = StdRng::seed_from_u64(seed * 1000 + t as u64);
             let mut slots: Vec<Option<SharedString>> = (0..num_slots).map(|_| None).collect();
@@ -382,6 +389,53 @@ pub fn stress(seed: u64, num_threads: usize, num_slots: usize, num_contents: i64
                     for s in slots.iter_mut() {
                         *s = None;
                     }
+                    let pair = t / 2;
+                    if pair_drops > 0 && (t | 1) < num_threads {
+                        use std::sync::atomic::Ordering::SeqCst;
+                        let (cell, stage) = &cells[pair];
+                        // a content no other pair and no slot uses: after both holders have returned from drop it is
+                        // quiescent, and the table must not have an entry for it
+                        let content: Vec<u8> = format!("pair-content-{}", pair).into_bytes();
+                        let my_hash = *blake3::hash(&content).as_bytes();
+                        for k in 0..pair_drops {
+                            if t % 2 == 0 {
+                                let h = SharedString::new(content.clone());
+                                *cell.lock().unwrap() = Some(h.clone());
+                                stage.store(4 * k + 1, SeqCst);
+                                while stage.load(SeqCst) < 4 * k + 2 {
+                                    std::hint::spin_loop();
+                                }
+                                for _ in 0..(k % 7) {
+                                    std::hint::spin_loop();
+                                }
+                                drop(h);
+                                while stage.load(SeqCst) < 4 * k + 3 {
+                                    std::hint::spin_loop();
+                                }
+                                if rbx_types::verif_shared_string_cache_entries().iter().any(|e| e.0 == my_hash) {
+                                    pair_stale.fetch_add(1, SeqCst);
+                                    // put the table back in order so that later iterations are independent
+                                    drop(SharedString::new(content.clone()));
+                                }
+                                stage.store(4 * k + 4, SeqCst);
+                            } else {
+                                while stage.load(SeqCst) < 4 * k + 1 {
+                                    std::hint::spin_loop();
+                                }
+                                let h = cell.lock().unwrap().take().unwrap();
+                                stage.store(4 * k + 2, SeqCst);
+                                for _ in 0..(k % 5) {
+                                    std::hint::spin_loop();
+                                }
+                                drop(h);
+                                // the partner may still be inside its own drop: it advances the stage only after it
+                                stage.store(4 * k + 3, SeqCst);
+                                while stage.load(SeqCst) < 4 * k + 4 {
+                                    std::hint::spin_loop();
+                                }
+                            }
+                        }
+                    }
                 }
                 shared.lock().unwrap()[t] = infos(&slots);
                 barrier.wait(); // everyone quiescent
@@ -396,6 +450,7 @@ pub fn stress(seed: u64, num_threads: usize, num_slots: usize, num_contents: i64
         let pending = vec![None; num_threads];
         let post = proj.project(&slots, &pending);
         emit(out, &ep, json!({"op": "observe", "round": round, "final": round == rounds, "post": post,
+                              "pair_stale": pair_stale.load(std::sync::atomic::Ordering::SeqCst),
                               "data_errors": bad.lock().unwrap().clone()}));
         barrier.wait();
     }
